@@ -124,9 +124,16 @@ func runC12(env *Env) {
 			}
 		}
 	}
+	twoTokensOneSubProcess(env, rep, "C12-inline", 12)
+	env.WriteCases(rep, "", "Corr.C12corr", blkCaseType, items, "c12_mismatches")
+	env.WriteReport(rep)
+}
+
+// twoTokensOneSubProcess (shared by C12 and C02)
+func twoTokensOneSubProcess(env *Env, rep *Report, key string, rounds int) {
 	// two tokens in one sub-process at the same time (a fork leads into it twice): the activations run one after
 	// the other, each runs the content, each hands its token back, and the instance completes only after both
-	for rnd := 0; rnd < 12 && !rep.Saturated(); rnd++ {
+	for rnd := 0; rnd < rounds && !rep.Saturated(); rnd++ {
 		burst := rnd >= 4 // the content ends in a burst of traces: A is followed by a fork to eight end events
 		cs := fmt.Sprintf("fork -> {S, G -> S}, S = start -> A -> end; second token enters while the first activation runs (round %d)", rnd)
 		if burst {
@@ -173,7 +180,7 @@ func runC12(env *Env) {
 		rep.Nontrivial++
 		rep.Count("two_tokens_one_subprocess")
 		fail := func(msg string) {
-			rep.Violate("C12-inline", cs, msg+"; log: "+logString(in.Log()))
+			rep.Violate(key, cs, msg+"; log: "+logString(in.Log()))
 		}
 		step := func(task string, wantA, wantZ int) bool {
 			if !in.Answer(task, tmoStep) {
@@ -200,6 +207,4 @@ func runC12(env *Env) {
 		}
 		in.Close()
 	}
-	env.WriteCases(rep, "", "Corr.C12corr", blkCaseType, items, "c12_mismatches")
-	env.WriteReport(rep)
 }
